@@ -307,7 +307,33 @@ class Extractor:
             zargs = [ast.unparse(a).replace(" ", "") for a in g.iter.args]
             elts = [ast.unparse(e).replace(" ", "") for e in n.elt.elts]
             tnames = [t.id for t in g.target.elts] if isinstance(g.target, ast.Tuple) else []
-            return AV("coll", coll="triangles", extra={"zip": zargs, "elts": elts, "targets": tnames, "line": n.lineno})
+            # structure without names: zip(F[i:], F[j:]) over one face variable F; rows V[F[k]], V[t_a], V[t_b]
+            facevar = None
+            lowers = []
+            for a in g.iter.args:
+                lo = None
+                if isinstance(a, ast.Subscript) and isinstance(a.value, ast.Name) and isinstance(a.slice, ast.Slice) \
+                        and a.slice.upper is None and a.slice.step is None and isinstance(a.slice.lower, ast.Constant):
+                    v = self.env.get(a.value.id)
+                    if v is not None and v.kind == "elem" and v.coll == "face" and facevar in (None, a.value.id):
+                        facevar = a.value.id
+                        lo = a.slice.lower.value
+                lowers.append(lo)
+            rows = []
+            for e in n.elt.elts:
+                r = None
+                if isinstance(e, ast.Subscript):
+                    base = self.ev(e.value)
+                    if base.kind == "coll" and base.coll == "vertices":
+                        ix = e.slice
+                        if isinstance(ix, ast.Name) and ix.id in tnames:
+                            r = ("target", tnames.index(ix.id))
+                        elif isinstance(ix, ast.Subscript) and isinstance(ix.value, ast.Name) and ix.value.id == facevar \
+                                and isinstance(ix.slice, ast.Constant):
+                            r = ("face", ix.slice.value)
+                rows.append(r)
+            return AV("coll", coll="triangles", extra={"zip": zargs, "elts": elts, "targets": tnames, "line": n.lineno,
+                                                        "lowers": lowers, "rows": rows})
         it = self.ev(g.iter)
         over = None
         if it.kind == "elem" and it.coll in ("vertex", "face", "tri-point"):
